@@ -230,7 +230,7 @@ Qed.
 
 Lemma ready_open s : ready s = true -> st_closed s = false /\ st_pend s = None.
 Proof.
-  unfold ready. destruct (st_closed s); cbn; [discriminate|]. destruct (st_pend s); [discriminate | auto].
+  unfold ready, ready0. destruct (st_closed s); cbn; [discriminate|]. destruct (st_pend s); [discriminate | auto].
 Qed.
 
 (** Every step of the repaired handleMutate (duplicate check) preserves the invariant; the other three
@@ -257,7 +257,7 @@ Proof.
   - destruct (ready s); [|discriminate]. inversion Hs; subst. eapply Inv_ext; [..|exact H]; reflexivity.
   - destruct (ready s); [|discriminate]. inversion Hs; subst. destruct ok; [exact H | eapply Inv_ext; [..|exact H]; reflexivity].
   - destruct (ready s); [|discriminate]. inversion Hs; subst. eapply Inv_ext; [..|exact H]; reflexivity.
-  - destruct (ready s); [|discriminate]. inversion Hs; subst. apply Inv_close_all; exact H.
+  - destruct (ready0 s); [|discriminate]. inversion Hs; subst. apply Inv_close_all; exact H.
   - destruct (st_pend s); [|discriminate]. destruct (st_closed s) eqn:C; [discriminate|]. inversion Hs; subst.
     eapply Inv_ext; [..|exact H]; cbn; auto.
   - destruct (st_runners s rid) as [r|] eqn:E; [|discriminate]. destruct (is_live r) eqn:L; [|discriminate].
@@ -272,7 +272,9 @@ Proof.
     destruct (find_id id (st_subs s1)) eqn:E; [|exact H1].
     destruct (Nat.eqb n rid) eqn:E2; [|exact H1].
     apply Nat.eqb_eq in E2. subst n. apply Inv_close_entry; [exact H1 | apply find_id_In; exact E].
-  - destruct (ready s); [|discriminate]. inversion Hs; subst. apply Inv_close_all; exact H.
+  - destruct (ready0 s); [|discriminate]. inversion Hs; subst. apply Inv_close_all; exact H.
+  - inversion Hs; subst; exact H.
+  - inversion Hs; subst. eapply Inv_ext; [..|exact H]; reflexivity.
 Qed.
 
 Theorem run_Inv cfg h : c_fix_mutdup cfg = true -> forall s s', Inv s -> run cfg s h = Some s' -> Inv s'.
